@@ -102,7 +102,9 @@ func checkJSONValueArms(c *core.Ctx) {
 			}
 		case "TypeIDBoolean":
 			scens = append(scens, scen{id, "true", false}, scen{id, "false", false})
-		case "TypeIDList", "TypeIDStruct", "TypeIDTuple":
+		case "TypeIDStruct":
+			scens = append(scens, scen{id, "named field", false}, scen{id, "field without a static name", false})
+		case "TypeIDList", "TypeIDTuple":
 			scens = append(scens, scen{id, "", false})
 		default:
 			scens = append(scens, scen{id, "", false})
@@ -131,6 +133,12 @@ func checkJSONValueArms(c *core.Ctx) {
 				return absint.Bool(sc.sub == "true"), true
 			}
 			return nil, false
+		}
+		in.Hooks.Cond = func(st *absint.State, atom string) (bool, bool) {
+			if sc.id == "TypeIDStruct" && strings.Contains(atom, ".Struct.Fields[") && strings.Contains(atom, "].Name") && strings.Contains(atom, `""`) {
+				return sc.sub == "field without a static name", true
+			}
+			return false, false
 		}
 		in.Hooks.Loop = func(st *absint.State, loop ast.Stmt) *absint.LoopSpec {
 			if sc.union {
@@ -291,7 +299,15 @@ func checkJSONValueArms(c *core.Ctx) {
 				} else {
 					name, item := sets[0][0], sets[0][1]
 					i := strings.TrimSuffix(strings.TrimPrefix(name, tname+".Struct.Fields["), "].Name")
-					if !strings.HasPrefix(name, tname+".Struct.Fields[") || item != "REC("+tname+".Struct.Fields["+i+"].Type,"+V+".Struct["+i+"])" {
+					fallback := false
+					if strings.HasPrefix(name, "Sprintf(") && sc.sub == "field without a static name" {
+						// a positional fallback for a field without a static name (value typed Any)
+						if k := strings.LastIndex(name, ","); k > 0 {
+							i = strings.TrimSuffix(name[k+1:], ")")
+							fallback = true
+						}
+					}
+					if (!strings.HasPrefix(name, tname+".Struct.Fields[") && !fallback) || item != "REC("+tname+".Struct.Fields["+i+"].Type,"+V+".Struct["+i+"])" {
 						bad = fmt.Sprintf("member %s must hold struct field %s rendered with that field's type; it holds %s", name, i, item)
 					}
 				}
